@@ -1,6 +1,6 @@
 """Per-property configuration of ./check."""
 
-HOOK_COMMITS = ["93c5b5f", "7b65bb1", "563f8ff", "154b503", "b4271c3", "cde17b7", "d2f58b6", "8829019"]
+HOOK_COMMITS = ["93c5b5f", "7b65bb1", "563f8ff", "154b503", "b4271c3", "cde17b7", "d2f58b6", "8829019", "35bf3bc", "a0c9eb5"]
 
 COMMON_ASSUME = [
     "the hand-written Lean model is faithful to /repo only as far as this run's correspondence sampled it",
@@ -26,6 +26,8 @@ def _render_nontrivial(case, impl):
         return len(it) == 2 and it[0] == "ok" and "2e2e2e" in it[1]
     if t[0] == "truncate":
         return len(it) == 2 and it[1] != t[1]
+    if t[0] == "frame":     # non-trivial: at least one running task with an output line
+        return len(t) > 9 and any(x != "~" for x in t[11::4])
     return t[0] == "bar" and any(x != "0" for x in t[1:7])
 
 def _sched_nontrivial(case, impl):
@@ -199,7 +201,7 @@ PROPS = {
             "the debounce thread, its mutex and stdout write errors of FancyConsoleProgress are not modelled: 'never aborts the build' is carried by no-panic of the only computations on that thread plus usize arithmetic in print_progress (max_cols - 2 with max_cols >= 10)",
             "Rust &str arguments are valid UTF-8; the theorems are stronger (arbitrary bytes)",
         ],
-        "trusted_base": ["progress_fancy.rs modelled: task_message, truncate, progress_bar, StateCounts::total; print_progress's formatting and the thread are not modelled"],
+        "trusted_base": ["progress_fancy.rs modelled: task_message, truncate, progress_bar, StateCounts::total, and one whole frame of print_progress (header, rows of up to 8 tasks incl. the last output line, '...and N more', cursor-up) as produced by the real FancyState::{update, task_started, task_output, print_progress} with the terminal replaced (width override, stdout sink); std's String::from_utf8_lossy is a parameter of the model (its result is supplied by the harness); the debounce thread is not modelled"],
     },
     "C15": {
         "claim": "Lean 4 theorems about an executable model of depfile.rs + read_depfile: the recorded prerequisites are exactly the listed ones (in order for distinct targets; none lost for repeated targets, finding F11 repaired). The byte-level parser model is tied to the real parser on all short strings over the depfile alphabet, structured depfiles under random formatting and raw bytes; the round-trip monitor runs in Lean on the real parser's output.",
@@ -359,3 +361,18 @@ PROPS["C03"]["claim"] += (" WHOLE INVOCATIONS (repeated_build_does_nothing, Lemm
     "and target resolution, restricted to the requested closure (build_only_requested). That the state a SUCCESSFUL build leaves is of this "
     "kind is so far checked, not proved: monitor settledAfterSuccess decides the same predicate (World.settled) on the implementation's tree "
     "+ the log (tied by logAgrees) after every successful invocation whose declared files all exist; evidence counts how often it applied.")
+
+PROPS["C20"]["claim"] += (" WHOLE FRAMES (task_rows_fit, all_task_rows_fit, frame_never_panics): for every count vector, every list of running tasks "
+    "(messages, ages, last output lines of ANY bytes after std's lossy decoding) and every width n2 accepts (>= 10, or none: 80), one "
+    "frame of print_progress is computed without panic or usize underflow, every task row and every last-output-line row is at most the "
+    "width in bytes, and an output-line row is two blanks + a prefix of the decoded line ending on a character boundary. Tied to the real "
+    "FancyState (update/task_started/task_output/print_progress run unmodified; only get_cols and the stdout write are replaced under the "
+    "verif feature) by exact equality of the frame bytes on random frames; monitors rowsFit, lastLineCut, frameShape, noPanic decide the "
+    "same facts on the real frame.")
+PROPS["C20"]["rule"] += (" || frames: 4000 (quick) / 60000 (thorough) random frames: 0-12 running tasks (messages of 1-200 mixed-width characters, ages "
+    "0..10^5 s as far as the machine's uptime allows, last output line absent / ASCII / UTF-8 / UTF-8 with stray bytes / raw bytes, 0-320 bytes), "
+    "widths none / 10..300, counts 0..60 per state. Non-trivial = a task with an output line.")
+
+PROPS["C16"]["claim"] += (" Output directories along a whole invocation (output_dirs_exist_every_step): also after earlier commands removed directory "
+    "trees, the parent of each output exists when its step's command starts (create_parent_dirs runs before EVERY command); observed on the real "
+    "binary by the family `n2bin outchain` (chains of steps whose commands rm -rf directories).")
